@@ -137,6 +137,12 @@ func vmodAttrs() map[string]ugo.Object {
 		"ns":  ugo.Map{"triple": triple, "depth": ugo.Map{"inc": inc}, "n": ugo.Int(2)},
 		"arr": ugo.Array{inc, ugo.Int(5), ugo.Array{triple}},
 		"sm":  &ugo.SyncMap{Value: ugo.Map{"triple": triple}},
+		// empty containers at every level: a copy of an empty container must be a new container too
+		"empty":    ugo.Map{},
+		"emptyarr": ugo.Array{},
+		"emptysm":  &ugo.SyncMap{Value: ugo.Map{}},
+		"emptyraw": ugo.Bytes{},
+		"boxes":    ugo.Map{"m": ugo.Map{}, "a": ugo.Array{ugo.Map{}, ugo.Array{}}, "sm": &ugo.SyncMap{Value: ugo.Map{"inner": ugo.Map{}}}},
 	}
 }
 
